@@ -141,4 +141,26 @@ PROPS = {
         "assumptions": ["operand type combinations are restricted to those the documented operator classes admit; what the "
                         "evaluator does on ill-typed operands (today: panic) is not constrained"],
     },
+    "C03": {
+        "functions_under_contract": [
+            "InstrFormat::{write_instr, read_instr, write_terminal_instr, instr_size, instr_header_size} for MsgHooks (src/formats/msg.rs), "
+            "InstrFormat06 and InstrFormat07 (src/formats/anm/read_write.rs), StdHooks06 and StdHooks10 (src/formats/std.rs), "
+            "OldeEclHooks{Th06,Th07}, TimelineFormat06, TimelineFormat08 (src/formats/ecl/ecl_06.rs), ModernEclHooks (src/formats/ecl/ecl_10.rs)",
+            "BinWriter / BinReader primitive reads and writes on an in-memory Cursor (executed, not stubbed)",
+        ],
+        "unverified": [
+            "file-level tables, counts, offsets and strings: anm entry headers, std object/instance tables, msg script table, "
+            "ecl_06 sub/timeline tables, mission.rs - written through IndexMaps and seeks CBMC cannot get through",
+            "argument values inside the blob (encode_args widths, C12): the blob is treated as opaque bytes",
+            "llir::write_instrs / read_instrs loops over a script and the end-offset logic for MaybeTerminal",
+            "that a rejected value is reported with a rendered diagnostic (the error path reaches the renderer)",
+        ],
+        "bounds": [
+            "round trips: argument blobs of concrete length 4 (quick) and 0, 12 (thorough) with symbolic contents - a symbolic length "
+            "makes the reader's EOF path reachable and CBMC diverges; every header field is fully symbolic",
+            "size-field obligations: blob length fully symbolic 0..=70000 (above every field width), contents zero",
+        ],
+        "trusted_base": ["stubs: alloc::fmt::format, ErrorReported::new (no backtrace), io::nice_display_path"],
+        "assumptions": ["fields a format does not store are fixed to RawInstr::DEFAULTS in the input (the source cannot request them)"],
+    },
 }
